@@ -16,3 +16,4 @@ Proof. exact gauge_drift_without_dec_refuted. Qed.
 
 Print Assumptions c20_gauge_matches_container_partial.
 Print Assumptions c20_gauge_never_negative_partial.
+Print Assumptions c20_missing_dec_refuted.
